@@ -72,7 +72,7 @@ Section Safety.
     - destruct i; cbn; auto.
   Qed.
   Lemma swidens_length s s' : swidens s s' -> length s = length s'.
-  Proof. apply Forall2_length. Qed.
+  Proof. induction 1; cbn; congruence. Qed.
 
   (** ** what may be returned: a live point of a location, outside its ORIGINAL read range *)
   Definition fresh_in (c : loc) (p : Z * V) : Prop :=
@@ -144,7 +144,7 @@ Section Safety.
       assert (Hvs : ssorted v) by (apply exclude_sorted, excl_tombs_sorted; auto).
       assert (Hvok : Forall (ok_pt s0) v).
       { apply Forall_forall. intros p Hp. apply rem_other_spec in Hp as (H1 & H2 & H3); [|auto].
-        eapply fresh_from_current; eauto. }
+        exact (fresh_from_current s0 s i p Hw H1 H2 H3). }
       destruct (0 <? length v)%nat; [|split; [|split]; cbn [fst snd]; auto].
       assert (His : ssorted (arr_include v mn mx)) by (apply include_sorted; auto).
       assert (Hiok : Forall (ok_pt s0) (arr_include v mn mx)).
@@ -177,7 +177,7 @@ Section Safety.
         assert (Hvs : ssorted values) by (apply excl_tombs_sorted, exclude_sorted; auto).
         assert (Hvok : Forall (ok_pt s0) values).
         { apply Forall_forall. intros p Hp. apply rem_first_spec in Hp as (H1 & H2 & H3); [|auto].
-          eapply fresh_from_current; eauto. }
+          exact (fresh_from_current s0 s fi p Hw H1 H2 H3). }
         destruct (Nat.eqb (length values) 0); [apply IH; auto|].
         destruct rest as [|r1 rest'].
         { split; [|auto]. eapply swidens_trans; [exact Hw|apply swidens_upd]. }
@@ -213,21 +213,21 @@ Section Safety.
             cbn [fst snd] in *. split; [|auto]. eapply swidens_trans; [exact H1|apply swidens_upd].
     Qed.
 
-    Lemma next_seeks asc c : k_seeks (next asc c) = k_seeks c.
+    Lemma next_seeks asc (c : cursor V) : k_seeks (next asc c) = k_seeks c.
     Proof.
       unfold next. destruct (k_cur c); [reflexivity|].
       destruct (negb _); [reflexivity|].
       destruct asc; [destruct (next_asc _ _)|destruct (next_desc _ _)]; reflexivity.
     Qed.
 
-    Lemma run_loop_inv asc s0 : data_sorted s0 -> forall fuel c bs, swidens s0 (k_seeks c) ->
-      run_loop mrg fuel asc c = Some bs ->
+    Lemma run_loop_inv asc s0 : data_sorted s0 -> forall fuel (k : cursor V) bs, swidens s0 (k_seeks k) ->
+      run_loop mrg fuel asc k = Some bs ->
       Forall (fun v => v <> [] /\ ssorted v /\ Forall (ok_pt s0) v) bs.
     Proof.
-      intro Hds. induction fuel as [|fuel IH]; intros c bs Hw Hr; [discriminate|].
+      intro Hds. induction fuel as [|fuel IH]; intros k bs Hw Hr; [discriminate|].
       cbn [run_loop] in Hr.
-      pose proof (read_block_inv asc s0 (k_cur c) Hds (k_seeks c) Hw) as Hrb.
-      destruct (read_block mrg asc (k_seeks c) (k_cur c)) as [[v s'] cur'].
+      pose proof (read_block_inv asc s0 (k_cur k) Hds (k_seeks k) Hw) as Hrb.
+      destruct (read_block mrg asc (k_seeks k) (k_cur k)) as [[v s'] cur'].
       destruct Hrb as [H1 [H2 H3]].
       destruct (Nat.eqb (length v) 0) eqn:El; [inversion Hr; constructor|].
       destruct (run_loop mrg fuel asc _) as [r|] eqn:Er; [|discriminate].
@@ -243,7 +243,7 @@ Section Safety.
     induction rp as [|y r IH]; cbn; [intuition|].
     destruct (loc_less asc x y); cbn; rewrite ?IH; intuition.
   Qed.
-  Lemma sort_locs_In asc l c : In c (sort_locs asc l) <-> In c l.
+  Lemma sort_locs_In asc (l : list loc) c : In c (sort_locs asc l) <-> In c l.
   Proof.
     unfold sort_locs. rewrite <- in_rev.
     assert (H : forall rp, In c (fold_left (fun rp x => ins_rev asc x rp) l rp) <-> In c l \/ In c rp).
@@ -253,7 +253,7 @@ Section Safety.
   Qed.
 
   Definition from_block (asc : bool) (t : Z) (fs : list (tfile V)) (c : loc) : Prop :=
-    exists fi f b, nth_error fs fi = Some f /\ In b (f_blocks f) /\
+    exists fi f (b : block V), nth_error fs fi = Some f /\ In b (f_blocks f) /\
       l_file c = fi /\ l_min c = b_min b /\ l_max c = b_max b /\ l_data c = b_data b /\
       l_tombs c = f_tombs f /\
       l_rmin c = (if asc then MinInt64 else add1_64 t) /\ l_rmax c = (if asc then sub1_64 t else MaxInt64).
@@ -262,7 +262,7 @@ Section Safety.
   Proof.
     unfold locations.
     assert (H : forall fs k, In c (locations_from asc t k fs) ->
-      exists fi f b, nth_error fs fi = Some f /\ In b (f_blocks f) /\
+      exists fi f (b : block V), nth_error fs fi = Some f /\ In b (f_blocks f) /\
         l_file c = (k + fi)%nat /\ l_min c = b_min b /\ l_max c = b_max b /\ l_data c = b_data b /\
         l_tombs c = f_tombs f /\
         l_rmin c = (if asc then MinInt64 else add1_64 t) /\ l_rmax c = (if asc then sub1_64 t else MaxInt64)).
@@ -280,7 +280,7 @@ Section Safety.
   Qed.
 
   Definition files_sorted (fs : list (tfile V)) : Prop :=
-    Forall (fun f => Forall (fun b => ssorted (b_data b)) (f_blocks f)) fs.
+    Forall (fun f => Forall (fun bk : block V => ssorted (b_data bk)) (f_blocks f)) fs.
 
   Lemma new_cursor_data_sorted fs t asc : files_sorted fs -> data_sorted (k_seeks (new_cursor fs t asc)).
   Proof.
@@ -292,7 +292,7 @@ Section Safety.
 
   (** ** the safety theorem *)
   Definition sound_point (fs : list (tfile V)) (t : Z) (asc : bool) (p : Z * V) : Prop :=
-    exists f b, In f fs /\ In b (f_blocks f) /\ In p (b_data b) /\ dead (f_tombs f) p = false /\
+    exists f (b : block V), In f fs /\ In b (f_blocks f) /\ In p (b_data b) /\ dead (f_tombs f) p = false /\
       (if asc then ~ (MinInt64 <= tm p <= sub1_64 t) else ~ (add1_64 t <= tm p <= MaxInt64)).
 
   Lemma run_cursor_sound (mrg : arr -> arr -> arr) :
